@@ -21,6 +21,7 @@
 (* paper, one per parameter set (reproduced in /repo/speck/tests/mod.rs).  *)
 (***************************************************************************)
 EXTENDS Naturals, Sequences, Bitwise, TLC, Words
+LOCAL INSTANCE SequencesExt   \* FoldLeft / FoldRight (evaluated by TLC's Java overrides)
 
 \* parameters of Table 4.1: word size n, key words m, rounds T
 SpeckParams(type) ==
@@ -37,51 +38,71 @@ SpeckParams(type) ==
 
 Alpha(n) == IF n = 16 THEN 7 ELSE 8
 Beta(n)  == IF n = 16 THEN 2 ELSE 3
-\* limb modulus and number of limbs of an n-bit word
+\* limb modulus, limb width and number of limbs of an n-bit word
 LimbMod(n) == IF n = 24 THEN 256 ELSE 65536
-Limbs(n)   == IF n = 24 THEN 3 ELSE n \div 16
+LimbW(n)   == IF n = 24 THEN 8 ELSE 16
+Limbs(n)   == n \div LimbW(n)
 
 \* big-endian bytes <-> word
 WordOf(n, bs)  == IF n = 24 THEN Rev(bs) ELSE BE16(bs)
 BytesOf(n, w)  == IF n = 24 THEN Rev(w) ELSE ToBE16(w)
 
+\* Rotation of a word of L limbs of B bits by s bits, 0 < s <= B (alpha and beta are at most 8):
+\* the same function as Words!RotRW / RotLW (checked below), without the general-amount
+\* bookkeeping, because the two rotations are most of the cost of a round.
+\* ps = 2^s, pc = 2^(B-s)
+RotR(w, ps, pc) == LET L == Len(w) IN
+    TLCEval([i \in 1..L |-> (w[i] \div ps) + ((w[(i % L) + 1] % ps) * pc)])
+RotL(w, ps, pc) == LET L == Len(w) IN
+    TLCEval([i \in 1..L |-> ((w[i] % pc) * ps) + (w[((i + L - 2) % L) + 1] \div pc)])
+
+ASSUME \A n \in {16, 24, 32, 48, 64} : \A s \in {Alpha(n), Beta(n)} :
+    LET M == LimbMod(n)
+        w == [i \in 1..Limbs(n) |-> (40503 * i + 4660) % M]
+    IN /\ RotR(w, Pow2(s), Pow2(LimbW(n) - s)) = RotRW(M, w, s)
+       /\ RotL(w, Pow2(s), Pow2(LimbW(n) - s)) = RotLW(M, w, s)
+
+\* the constants of one parameter set that the round function needs
+RoundConsts(n) ==
+    [M |-> LimbMod(n),
+     pa |-> Pow2(Alpha(n)), pca |-> Pow2(LimbW(n) - Alpha(n)),
+     pb |-> Pow2(Beta(n)),  pcb |-> Pow2(LimbW(n) - Beta(n))]
+
 \* ------------------------------------------------------------ round function
 \* state is <<x, y>>
-Round(n, k, st) ==
-    LET M  == LimbMod(n)
-        nx == XorW(AddW(M, RotRW(M, st[1], Alpha(n)), st[2]), k)
-        ny == XorW(RotLW(M, st[2], Beta(n)), nx)
+Round(c, k, st) ==
+    LET nx == XorW(AddW(c.M, RotR(st[1], c.pa, c.pca), st[2]), k)
+        ny == XorW(RotL(st[2], c.pb, c.pcb), nx)
     IN <<nx, ny>>
-InvRound(n, k, st) ==
-    LET M  == LimbMod(n)
-        y  == RotRW(M, XorW(st[1], st[2]), Beta(n))
-        x  == RotLW(M, SubW(M, XorW(st[1], k), y), Alpha(n))
+InvRound(c, k, st) ==
+    LET y  == RotR(XorW(st[1], st[2]), c.pb, c.pcb)
+        x  == RotL(SubW(c.M, XorW(st[1], k), y), c.pa, c.pca)
     IN <<x, y>>
 
 \* -------------------------------------------------------------- key schedule
-\* ls[j+1] = l_j, ks[j+1] = k_j; step i computes l_{i+m-1} and k_{i+1}
-RECURSIVE Expand(_, _, _, _, _, _)
-Expand(n, m, T, ls, ks, i) ==
-    IF i > T - 2 THEN ks
-    ELSE LET M  == LimbMod(n)
-             nl == XorW(AddW(M, ks[i + 1], RotRW(M, ls[i + 1], Alpha(n))), NatW(M, i, Limbs(n)))
-             nk == XorW(RotLW(M, ks[i + 1], Beta(n)), nl)
-         IN Expand(n, m, T, Append(ls, nl), Append(ks, nk), i + 1)
+\* st = <<ls, ks>> with ls[j+1] = l_j, ks[j+1] = k_j; step i computes l_{i+m-1} and k_{i+1}
+ExpandStep(c, nl, st, i) ==
+    LET l == XorW(AddW(c.M, st[2][i + 1], RotR(st[1][i + 1], c.pa, c.pca)), NatW(c.M, i, nl))
+        k == XorW(RotL(st[2][i + 1], c.pb, c.pcb), l)
+    IN <<Append(st[1], l), Append(st[2], k)>>
 
-\* key bytes = l_{m-2} || ... || l_0 || k_0
+\* key bytes = l_{m-2} || ... || l_0 || k_0; the result is <<k_0, ..., k_{T-1}>>
 KeySchedule(p, key) ==
     LET n  == p.n
-        wb == n \div 8
-        ws == Chunks(key, wb)                                   \* ws[j], j = 1..m
+        c  == RoundConsts(n)
+        nl == Limbs(n)
+        ws == Chunks(key, n \div 8)                             \* ws[j], j = 1..m
         l0 == [j \in 1..(p.m - 1) |-> WordOf(n, ws[p.m - j])]   \* l0[j+1] = l_j
         k0 == WordOf(n, ws[p.m])
-    IN Expand(n, p.m, p.T, l0, <<k0>>, 0)
+    IN FoldLeft(LAMBDA st, i : ExpandStep(c, nl, st, i), <<l0, <<k0>>>>,
+                [j \in 1..(p.T - 1) |-> j - 1])[2]
 
 \* ---------------------------------------------------------------- the cipher
-RECURSIVE EncFrom(_, _, _, _)
-EncFrom(n, rk, i, st) == IF i > Len(rk) THEN st ELSE EncFrom(n, rk, i + 1, Round(n, rk[i], st))
-RECURSIVE DecFrom(_, _, _, _)
-DecFrom(n, rk, i, st) == IF i < 1 THEN st ELSE DecFrom(n, rk, i - 1, InvRound(n, rk[i], st))
+\* (iteration by FoldLeft/FoldRight rather than by a recursive operator: TLC evaluates a
+\* recursive operator in a context that grows with the recursion depth, and every lookup of a
+\* standard-module operator such as + walks that context)
+Encrypt(c, rk, st) == FoldLeft(LAMBDA s, k : Round(c, k, s), st, rk)
+Decrypt(c, rk, st) == FoldRight(LAMBDA k, s : InvRound(c, k, s), rk, st)
 
 Split(n, in) == LET wb == n \div 8 IN
     <<WordOf(n, SubSeqB(in, 1, wb)), WordOf(n, SubSeqB(in, wb + 1, 2 * wb))>>
@@ -89,7 +110,8 @@ Join(n, st) == BytesOf(n, st[1]) \o BytesOf(n, st[2])
 
 \* ------------------------------------------------- conformance interface
 SpeckSched(type, key, x) ==
-    LET p == SpeckParams(type) IN [n |-> p.n, rk |-> TLCEval(KeySchedule(p, key))]
-SpeckEnc(ks, in) == Join(ks.n, EncFrom(ks.n, ks.rk, 1, Split(ks.n, in)))
-SpeckDec(ks, in) == Join(ks.n, DecFrom(ks.n, ks.rk, Len(ks.rk), Split(ks.n, in)))
+    LET p == SpeckParams(type)
+    IN [n |-> p.n, c |-> TLCEval(RoundConsts(p.n)), rk |-> TLCEval(KeySchedule(p, key))]
+SpeckEnc(ks, in) == Join(ks.n, Encrypt(ks.c, ks.rk, Split(ks.n, in)))
+SpeckDec(ks, in) == Join(ks.n, Decrypt(ks.c, ks.rk, Split(ks.n, in)))
 =============================================================================
